@@ -1,0 +1,9 @@
+//go:build verif
+
+package proj
+
+// VerifDatumTransform exposes datumTransform (with an explicit height) to the
+// verification harness. It is compiled only with the build tag "verif".
+func VerifDatumTransform(source, dest *SR, x, y, z float64) (float64, float64, float64, error) {
+	return datumTransform(source.datum, dest.datum, x, y, z)
+}
